@@ -1,6 +1,7 @@
 package props
 
 import (
+	"bytes"
 	"context"
 	"errors"
 	"fmt"
@@ -198,7 +199,120 @@ func runC05(c *core.Ctx) {
 		}
 		c05Trial(c, id, idx)
 	}
+	// an application whose exception handler is strict (it panics on what it does not handle) on a connection whose reads
+	// start to fail: the read loop still has to end and the channel to close exactly once
+	for j := 0; j < c.Scale(120, 2000); j++ {
+		if !c.Mine(j) {
+			continue
+		}
+		id := fmt.Sprintf("strict-exc/%d", j)
+		if c.CaseQuiet(id) {
+			c05StrictExc(c, id, j)
+		}
+	}
 	runtime.GOMAXPROCS(runtime.NumCPU())
+}
+
+// strictProbe reads one byte per read event and panics with the read error; its exception handler panics too.
+type strictProbe struct {
+	mu       sync.Mutex
+	wrap     bool
+	reads    int
+	failed   int
+	excs     int
+	inactive int
+}
+
+func (p *strictProbe) HandleRead(ctx netty.InboundContext, message netty.Message) {
+	var b [1]byte
+	_, err := message.(io.Reader).Read(b[:])
+	p.mu.Lock()
+	p.reads++
+	if err != nil {
+		p.failed++
+	}
+	p.mu.Unlock()
+	if err != nil {
+		if p.wrap {
+			panic(fmt.Errorf("read header fail, error: %w", err))
+		}
+		panic(err)
+	}
+}
+
+func (p *strictProbe) HandleException(ctx netty.ExceptionContext, ex netty.Exception) {
+	p.mu.Lock()
+	p.excs++
+	p.mu.Unlock()
+	panic(fmt.Errorf("strict application handler: unexpected exception: %v", ex))
+}
+
+func (p *strictProbe) HandleInactive(ctx netty.InactiveContext, ex netty.Exception) {
+	p.mu.Lock()
+	p.inactive++
+	p.mu.Unlock()
+	ctx.HandleInactive(ex)
+}
+
+func c05StrictExc(c *core.Ctx, id string, j int) {
+	mode := mon.Mode(j % 3)
+	terms := []struct {
+		name string
+		err  error
+	}{{"io.EOF", io.EOF}, {"io.ErrUnexpectedEOF", io.ErrUnexpectedEOF}, {"plain error", errors.New("mock transport: connection reset by peer")},
+		{"timeout net.Error", tmoErr{true}}, {"fatal net.Error", tmoErr{false}}}
+	term := terms[(j/3)%len(terms)]
+	rng := c.Rand("strict-exc", j)
+	probe := &strictProbe{wrap: (j/15)%2 == 1}
+	tr := mon.NewRecTransport()
+	good := rng.Intn(4)
+	tr.FeedBytes(bytes.Repeat([]byte("x"), good))
+	tr.SetTerminal(term.err)
+	runtime.GOMAXPROCS([]int{2, 4, 16}[rng.Intn(3)])
+	rig := mon.NewRig(mon.RigOpts{Mode: mode, Queue: 2, NoPark: true, Tr: tr, Handlers: []netty.Handler{probe}})
+	what := fmt.Sprintf("[mode=%s, %d good reads, then every transport read fails with %s (wrapped by the handler: %v); the application's exception handler panics]", mode, good, term.name, probe.wrap)
+	// logical criterion for 'does not terminate': thousands of failed reads delivered and the channel is still open
+	deadline := time.Now().Add(10 * time.Second)
+	quiet, spins := false, 0
+	for !quiet && time.Now().Before(deadline) {
+		quiet = rig.Ex.WaitOutstanding(0, 20*time.Millisecond)
+		probe.mu.Lock()
+		spins = probe.failed
+		probe.mu.Unlock()
+		if !quiet && spins > 20000 && !tr.IsClosed() {
+			break
+		}
+	}
+	c.Count("strict_exception_handler_trials", 1)
+	probe.mu.Lock()
+	failed, inactive, excs := probe.failed, probe.inactive, probe.excs
+	probe.mu.Unlock()
+	switch {
+	case !quiet && failed > 20000 && !tr.IsClosed():
+		c.Violation("C05:read-loop-spins-on-failed-transport", id, fmt.Sprintf("%d failed reads (%d exceptions) were delivered and the channel is still open, its read loop still running: it never terminates %s", failed, excs, what), nil)
+		tr.Close()
+		rig.Ch.Close(nil)
+	case !quiet:
+		c.Inconclusive(id, "watchdog: read loop neither ended nor kept failing "+what)
+		tr.Close()
+		rig.Ch.Close(nil)
+	default:
+		if k := tr.CloseCount(); k != 1 {
+			c.Violation("C05:transport-close-count", id, fmt.Sprintf("the read loop ended and the transport was closed %d times %s", k, what), nil)
+		}
+		if inactive != 1 {
+			c.Violation("C05:inactive-count", id, fmt.Sprintf("inactive delivered %d times %s", inactive, what), nil)
+		}
+		if rig.Ch.IsActive() {
+			c.Violation("C05:active-after-close-returned", id, "IsActive() is true after the read loop ended "+what, nil)
+		}
+		if rig.Ch.Context().Err() == nil {
+			c.Violation("C05:context-not-cancelled", id, "the channel context is not cancelled after the read loop ended "+what, nil)
+		}
+		c.Count("failed_reads_until_read_loop_ended", int64(failed))
+	}
+	c.Sig("strict-exc", int(mode), term.name, probe.wrap, good)
+	rig.Dispose()
 }
 
 func c05Trial(c *core.Ctx, id string, idx int) {
